@@ -2044,13 +2044,17 @@ class PrepareAst:
                     if not isinstance(new_obj, obj_type):
                         return new_call
 
-                    if obj_type.__init__ is object.__init__:
+                    # __new__ can return an instance of a subclass,
+                    # __init__ is looked up in the type of the new object
+                    init_type = type(new_obj)
+
+                    if init_type.__init__ is object.__init__:
                         # emulated type has no __init__ function
                         # no call required
                         return out.Value(new_obj, bound_expressions)
 
                     args.insert(0, new_obj)
-                    func_ref = obj_type.__init__
+                    func_ref = init_type.__init__
 
                     # set flag to indicate, that declarations are allowed
                     new_obj._cohdl_init_active = True
